@@ -8,6 +8,14 @@ from metapype.model.node import Node
 logging.disable(logging.CRITICAL)      # logging has an empty body in the harnesses (formatting under tracing stalls CrossHair)
 
 
+def fresh():
+    """Start of every harness path: module/class-level state of the code under test back to its import-time content
+    (a cache or memo introduced by a change must not leak from one explored path into the next), empty registry."""
+    from vlib import stateguard
+    stateguard.restore()
+    Node.store.clear()
+
+
 def part(default=0):
     try:
         return int(os.environ.get("VERIF_PART", default))
